@@ -14,7 +14,8 @@ RULE = ("component trees from G3 (depth <= 6, fan-out <= 5, repeated and unknown
         "object(), a plain dict with the same items}, unchanged by permuting subcomponents at every level (all permutations when <= 4 children, else "
         "sampled) and by shuffling property insertion order and name case, and False in both directions after every single perturbation (component kind, "
         "one property value, property added/removed, subcomponent added/removed, one subcomponent duplicated in place of a sibling); copies by "
-        "deepcopy, pickle and serialise+parse are equal both ways and serialise identically; non-trivial = tree with >= 3 components; distinct by case hash")
+        "deepcopy, pickle and serialise+parse are equal both ways and serialise identically, and two parses of one text (custom VTIMEZONE definitions with X- "
+        "properties included) are equal to each other; sibling families with identical properties that differ only in their children; non-trivial = tree with >= 3 components; distinct by case hash")
 ASSUMPTIONS = ["components carry upper-case names (as the parser produces) (S12)", "runs under the default (zoneinfo) provider; pytz pickling of custom zones is noted separately (S12)",
                "parameter-only perturbations are not asserted either way (the statement names kind, value and subcomponent multiset)",
                "the serialise+parse copy is taken of a parsed tree without TEXT escapes (round-trip losses are C01/C02 findings)"]
@@ -25,7 +26,7 @@ CASE_TIMEOUT_S = 20
 def run(ctx):
     rng = ctx.rng
     while ctx.time_left():
-        g = G(rng, hostile=0.0, custom_tz=False, api_safe=True, max_depth=6)
+        g = G(rng, hostile=0.0, custom_tz=False, api_safe=True, max_depth=6, api_custom_tz=(rng.randrange(3) == 0))
         m = g.calendar()
         m = enrich(rng, m)
         ctx.check(("tree", m, rng.randrange(10 ** 9)), "G3-trees")
@@ -40,8 +41,17 @@ def enrich(rng, m):
     if rng.randrange(2):
         inner = ("comp", rng.choice(("X-GROUP", "VEVENT", "X-GROUP")), (("X-NOTE", (), ("text", "n%d" % rng.randrange(3))),), tuple(subs[:2]))
         subs.append(("comp", "X-GROUP", (("X-NOTE", (), ("text", "outer")),), (inner,)))
+    if rng.randrange(3) == 0:
+        # a family of siblings with identical properties that differ only *below* themselves (the multiset of their children):
+        # matching siblings across two orders must look into the subtrees, whatever order those are in
+        fprops = (("X-NOTE", (), ("text", "family")),)
+        kind = rng.choice(("X-FAM", "VEVENT", "VTODO"))
+        for _ in range(rng.randrange(2, 4)):
+            kids = tuple(("comp", rng.choice(("X-KID", "VALARM")), (("X-NOTE", (), ("text", "n%d" % rng.randrange(5))),), ()) for _ in range(rng.randrange(0, 4)))
+            subs.append(("comp", kind, fprops, kids))
     rng.shuffle(subs)
-    return ("comp", name, props, tuple(subs[:6]))
+    zones = [x for x in subs if x[1] == "VTIMEZONE"]             # (never cut away: values of other components refer to them)
+    return ("comp", name, props, tuple(zones + [x for x in subs if x[1] != "VTIMEZONE"][:7]))
 
 
 def preorder(c):
@@ -236,11 +246,17 @@ def check_case(ctx, case):
     text = emit(model)
     try:
         p1 = icalendar.Calendar.from_ical(text)
+        p1b = icalendar.Calendar.from_ical(text)
         p2 = icalendar.Calendar.from_ical(p1.to_ical())
     except Exception as e:
         ctx.count("reparse-copy-skipped:" + type(e).__name__)
         p1 = None
     if p1 is not None:
+        # two serialise+parse copies of one original are both equal to it, hence (equivalence) to each other - also when the
+        # first one was the first in this process to meet a VTIMEZONE id
+        if eq_outcome(p1, p1b) != ("value", True, False) or eq_outcome(p1b, p1) != ("value", True, False) or p1.to_ical() != p1b.to_ical():
+            ctx.fail("two-parses-of-one-text-unequal", observed=(eq_outcome(p1, p1b), p1.to_ical() == p1b.to_ical()), expected="equal both ways, identical bytes", detail=text[:1500])
+            return
         if eq_outcome(p1, p2) != ("value", True, False) or eq_outcome(p2, p1) != ("value", True, False):
             if tree.obs(p1) == tree.obs(p2):
                 ctx.fail("reparse-copy-not-equal", observed=(eq_outcome(p1, p2), eq_outcome(p2, p1)), expected="equal both ways")
